@@ -23,7 +23,7 @@ ASSUMPTIONS = c06.ASSUMPTIONS + ['release events of multi-client ports reply voi
 
 
 CLIENT_PAIRS = [('A', 'B'), ('B', 'A'), ('ui', 'cli'), ('client10', 'client1'), ('p', 'panel'),
-                ('z', 'a')]
+                ('z', 'a'), ('Alice~s', '~sAlice')]
 
 
 def clients_of(info):
@@ -124,7 +124,14 @@ def script_for(info, steps):
     imp = int(not info.create)
     script = [f'locator {imp} {imp} 1 0', 'construct inst']
     if info.mc:
-        script += [f'client {c} -' for c in clients_of(info)]
+        import json
+        import zlib
+        first, second = clients_of(info)
+        if zlib.crc32(json.dumps(info.spec, sort_keys=True).encode()) // 7 % 2:
+            # both enclosures are fetched before either client's out-events are bound
+            script.append(f'clientsff {first} {second}')
+        else:
+            script += [f'client {first} -', f'client {second} -']
     script += ['bind -', 'final 1']
     for i, (cmd, exp) in enumerate(steps):
         if exp is not None:
